@@ -8,9 +8,14 @@ nfc.dep.Initiator(clf_i), **dep_opts) versus ...activate(mac=nfc.dep.Target(clf_
 air (sim/air.py), with the options going where ContactlessFrontend._llcp_connect puts them -- and
 Trace_P2pNeg requires proj = Proj(Expected(cfg)); then LLCP PDUs of the maximum negotiated size cross the
 link with the frame monitor on (size <= LR of the receiver, bit rate = the selected one).
+Full traffic phase (bind/c19_traffic.py): the real run loops; both sides open a data link connection to the other's
+service, addressed by SAP / by service name / by SAP after resolve() (rotating), CONNECT and CC announcing MIU and RW;
+every connection end reports what it holds (End: SO_SNDMIU, messages taken before EWOULDBLOCK) and is offered one
+message of exactly the receiver's limit and one of one octet more (Over); Trace_P2pNeg follows the PDUs on the air
+with the connection actions of P2pNeg and requires ConnEqual / Admitted / Refused / WinObey / Obey.
 """
 import json, math, concurrent.futures as cf
-from vlib import tlc, check
+from vlib import tlc, check, tlaval
 
 import nfc
 import nfc.clf
@@ -275,8 +280,18 @@ def traffic_pair(kind, k):
     # LLC PDUs reassembled from the air, up to the decision to close
     last_rx = {"I": None, "T": None}
     turn = {"I": 0, "T": 0}
+    descs = []
     for d, data, t in tf.llc_frames(air.log, start, stop):
         desc = tf.llc_desc(data)
+        descs.append((d, desc))
+    flights = tf.max_in_flight(descs)
+    for d, desc in descs:
+        for p in [desc] + desc["inner"]:
+            del p["ns"], p["nr"]
+            for f in () if p["t"] in ("CONNECT", "CC") else ("mtlv", "rw", "sn"):
+                del p[f]
+            if p["t"] != "SNL":
+                del p["svc"]
         desc.update(a="Llc", dir=d)
         ev.append(desc)
     # turn-around: virtual time between the end of a received LLC PDU and the first frame of the answer
@@ -320,9 +335,19 @@ def traffic_pair(kind, k):
             got = app[dst].i_rcvd[theirs]
             ev.append(dict(a="Data", dir=d, kind="I", sent=len(sent), rcvd=len(got), ok=got == sent[:len(got)],
                            problems=len(app[src].errors)))
-            if mine in app[src].over:
-                n, accepted, sap = app[src].over[mine]
-                ev.append(dict(a="Over", dir=d, sap=sap, n=n, accepted=accepted))
+            for probe in (app[src].at, app[src].over):
+                if mine in probe:
+                    n, accepted, sap = probe[mine]
+                    ev.append(dict(a="Over", dir=d, sap=sap, n=n, accepted=accepted))
+            if "burst" in app[src].end.get(mine, ()):
+                # what this end of the connection holds (role: it opened / accepted the connection; mode: the way the
+                # opener was told to address it)
+                e = app[src].end[mine]
+                ev.append(dict(a="End", side=src.upper(), role="opn" if mine == "out" else "acc",
+                               mode=app[src if mine == "out" else dst].mode, sap=e["sap"], sndmiu=e["sndmiu"],
+                               burst=e["burst"], blocked=e["blocked"]))
+    for (d, dsap, ssap), n in sorted(flights.items()):
+        ev.append(dict(a="Flight", dir=d, sap=dsap, n=n))
     return tr
 
 
@@ -371,6 +396,27 @@ def classify(tr, v):
             return "Obey:%s:%s%s:exceeds-receiver-limit-by-%d" % (f["layer"], f["dir"], what, f["size"] - f["limit"])
         if name == "Refused":
             return "Refused:%s:send()-accepts-a-message-beyond-the-receiver's-connection-and-link-MIU" % e.get("dir")
+        if name == "Admitted":
+            return "Admitted:%s:%s:send()-refuses-a-message-within-the-receiver's-connection-and-link-MIU" % (
+                e.get("dir"), end_of(tr, e))
+        if name == "WinObey":
+            return "WinObey:%s:more-I-PDUs-in-flight-than-the-receiver's-window" % e.get("dir")
+        if name == "ConnEqual":
+            recs = why[2][0] if len(why) > 2 and why[2] else []
+            recs = recs[1] if isinstance(recs, tuple) and recs[0] == "set" else recs
+            recs = sorted(recs)
+            who = "%s:connection-addressed-by-%s:%s-end" % (e.get("side"), HOW.get(e.get("mode"), e.get("mode")),
+                                                          "opening" if e.get("role") == "opn" else "accepting")
+            if not recs:
+                return "ConnEqual:%s:no-open-connection-on-the-air" % who
+            mode, sap, miu, win = recs[0]
+            if mode != e.get("mode"):
+                return "ConnEqual:%s:addressed-by-%s-on-the-air" % (who, HOW.get(mode, mode))
+            if e["sndmiu"] != miu:
+                return "ConnEqual:%s:send-MIU-%s-than-the-peer-announced" % (who, "smaller" if e["sndmiu"] < miu else "larger")
+            if e["burst"] > win or (e["blocked"] and e["burst"] != win):
+                return "ConnEqual:%s:send-window-%s-than-the-peer-announced" % (who, "smaller" if e["burst"] < win else "larger")
+            return "ConnEqual:%s:peer-SAP" % who
         if name == "RwtKept":
             return K_RWT
         if name == "LtoKept":
@@ -381,6 +427,17 @@ def classify(tr, v):
             return "Delivered:%s:%s" % (e.get("kind"), e.get("dir"))
         return "%s@%s" % (name, act)
     return "%s@%s" % (kind, act)
+
+
+HOW = {"sap": "SAP", "name": "name", "resolved": "SAP-after-resolve"}
+
+
+def end_of(tr, over):
+    """which connection end offered the message of an Over event: '<way of addressing>:<opening|accepting>-end'"""
+    for e in tr["ev"]:
+        if e["a"] == "End" and e["sap"] == over["sap"] and e["side"] == over["dir"][0]:
+            return "connection-addressed-by-%s:%s-end" % (HOW[e["mode"]], "opening" if e["role"] == "opn" else "accepting")
+    return "?"
 
 
 def mutate_for_selftest(tr):
@@ -419,11 +476,34 @@ def mutate_traffic_selftest(tr):
             e["cyc"][0] += 13560
             break
     t2["id"] += "-wait+1ms"
-    return [t1, t2]
+    # the accepting end of a connection reports a send MIU one octet below / a send window one below what the
+    # opener announced; the opening end takes a message less at once; the message of exactly the limit is refused
+    out = [t1, t2]
+    for suffix, role, field in (("-accmiu-1", "acc", "sndmiu"), ("-accwin-1", "acc", "burst"), ("-opnwin-1", "opn", "burst")):
+        t = json.loads(json.dumps(tr))
+        for e in t["ev"]:
+            if e["a"] == "End" and e["role"] == role:
+                e[field] -= 1
+                break
+        t["id"] += suffix
+        out.append(t)
+    t = json.loads(json.dumps(tr))
+    for e in t["ev"]:
+        if e["a"] == "Over" and e["accepted"]:
+            e["accepted"] = False
+            break
+    t["id"] += "-atlimit-refused"
+    out.append(t)
+    return out
+
+
+SELF_F = (("-agf+1", "Obey"), ("-wait+1ms", "Timeouts"), ("-accmiu-1", "ConnEqual"), ("-accwin-1", "ConnEqual"),
+          ("-opnwin-1", "ConnEqual"), ("-atlimit-refused", "Admitted"))
 
 
 WITNESSES = ["W_Psl", "W_NoPsl", "W_Down", "W_Acm", "W_MaxMiu", "W_ConnLim", "W_Full"]
-INVS = ["Refused", "Obey", "BitRate", "Timeouts", "LtoKept", "RwtKept", "Delivered", "LinkUp"]
+CONN_WITNESSES = ["W_BySap", "W_ByName", "W_Resolved", "W_NoTlv", "W_Clamped", "W_Win"]
+INVS = ["ConnEqual", "Admitted", "WinObey", "Refused", "Obey", "BitRate", "Timeouts", "LtoKept", "RwtKept", "Delivered", "LinkUp"]
 K_RWT = "RwtKept:T:target-run-loop-pause-exceeds-the-RWT-it-announced"
 K_LTO = "LtoKept:%s:run-loop-idle-pause-exceeds-the-LTO-it-announced"
 
@@ -450,9 +530,16 @@ def run(tier, seed):
     # 1. TLC enumerates the grid
     #    quick grid: activation, then connection announcements and obeying senders at the limits (Obey, LimitsSane);
     #    thorough: additionally the big grid (activation step only)
+    #    connections: every way of addressing x opener x announcement classes of CONNECT and CC on the 36 link MIU
+    #    pairs (ConnEqual, ConnLimitAgree), and both sides opening in one behaviour
     rq = tlc.run("MC_P2pNeg.tla", "MC_P2pNeg.cfg", PID, workers=16, timeout=600)
-    runs = [rq, tlc.run("MC_P2pNeg.tla", "MC_P2pNeg_grid.cfg" if quick else "MC_P2pNeg_thorough.cfg", PID,
-                        workers=16, timeout=1800)]
+    with cf.ThreadPoolExecutor(max_workers=3) as ex:
+        futs = [ex.submit(tlc.run, "MC_P2pNeg.tla", "MC_P2pNeg_grid.cfg" if quick else "MC_P2pNeg_thorough.cfg",
+                          PID + "/grid", workers=8 if quick else 16, timeout=1800),
+                ex.submit(tlc.run, "MC_P2pNeg.tla", "MC_P2pNeg_conn.cfg", PID + "/conn", workers=4, timeout=900),
+                ex.submit(tlc.run, "MC_P2pNeg.tla", "MC_P2pNeg_conn2.cfg", PID + "/conn2", workers=4, timeout=900)]
+        rg, rc1, rc2 = [f.result() for f in futs]
+    runs = [rq, rc1, rc2, rg]
     for r in runs:
         if not r.ok:
             ck.violation("spec:P2pNeg:" + ",".join(r.violated or ["deadlock"]),
@@ -461,8 +548,10 @@ def run(tier, seed):
     r = runs[-1]
     init_states = r.distinct // 2       # (the grid run has one successor per configuration)
     hit, _ = tlc.witnesses("MC_P2pNeg.tla", "MC_P2pNeg_reach.cfg", PID, WITNESSES)
-    if set(WITNESSES) - hit:
-        raise tlc.TLCError("vacuous model: witnesses not reached: %s" % sorted(set(WITNESSES) - hit))
+    # (the connection witnesses are reported by the checking run itself: MC_ConnWitLog)
+    hit |= {v[1] for v in tlaval.extract_tuples(rc1.out) if isinstance(v, list) and len(v) == 2 and v[0] == "REACHED"}
+    if set(WITNESSES + CONN_WITNESSES) - hit:
+        raise tlc.TLCError("vacuous model: witnesses not reached: %s" % sorted(set(WITNESSES + CONN_WITNESSES) - hit))
     ck.cover(witnesses_reached=sorted(hit))
     # 2. the same grid on two real stacks; traffic on a part of it (every configuration of the small
     #    sub-grids, every 16th of the big ones)
@@ -478,7 +567,8 @@ def run(tier, seed):
     exhaustive = len(traces) == grid and init_states == distinct
     self_t = mutate_for_selftest(next(t for t in traces if any(e["a"] == "Frame" for e in t["ev"])))
     cands = [t for t in traces if any(e["a"] == "Llc" and e["t"] == "AGF" for e in t["ev"])
-             and any(e["a"] == "Waits" and e["cyc"] for e in t["ev"])]
+             and any(e["a"] == "Waits" and e["cyc"] for e in t["ev"])
+             and sum(1 for e in t["ev"] if e["a"] == "End" and e["blocked"] and e["burst"] > 0) == 4]
     cands = cands[::max(1, len(cands) // 6)][:6]
     self_f = [m for t in cands for m in mutate_traffic_selftest(t)]
     verdicts, st = tlc.validate_traces("Trace_P2pNeg.tla", "Trace_P2pNeg.cfg", PID, traces + self_t + self_f,
@@ -489,14 +579,37 @@ def run(tier, seed):
     # demonstrated binding of the traffic phase: on recorded runs that conform, an information field one octet
     # over the receiver's MIU must be flagged by Obey and a timeout 1 ms off by Timeouts
     usable = [t for t in cands if verdicts[t["id"]][0] == "ACCEPT"
-              and not any((t["id"] + "#" + inv) in verdicts for inv in ("Obey", "Timeouts"))]
+              and not any((t["id"] + "#" + inv) in verdicts for _, inv in SELF_F)]
     for t in usable:
-        for suffix, inv in (("-agf+1", "Obey"), ("-wait+1ms", "Timeouts")):
+        for suffix, inv in SELF_F:
             if (t["id"] + suffix + "#" + inv) not in verdicts:
                 raise tlc.TLCError("binding vacuous: %s%s not flagged by %s" % (t["id"], suffix, inv))
     if not usable and all(verdicts[t["id"]][0] == "ACCEPT" for t in traces) \
-            and not any("#" in vid and not vid.split("#")[0].endswith(("-agf+1", "-wait+1ms")) for vid in verdicts):
+            and not any("#" in vid and not vid.split("#")[0].endswith(tuple(sfx for sfx, _ in SELF_F)) for vid in verdicts):
         raise tlc.TLCError("binding vacuous: no full-traffic run usable for the self-test")
+    # the connection dimension was really exercised: every way of addressing x either opener x both ends, with the
+    # CONNECT announcing no MIUX TLV / an MIU below / at / above the opener's link MIU and every receive window,
+    # on connections that filled their window (unless the runs themselves are what is wrong: then that is reported)
+    seen = set()
+    for tr in traces:
+        ann = {}                     # (sender, PDU type) -> the CONNECT / CC on the air
+        for e in tr["ev"]:
+            if e["a"] == "Llc":
+                for p in (e["inner"] if e["t"] == "AGF" else [e]):
+                    if p["t"] in ("CONNECT", "CC"):
+                        ann[(e["dir"][0], p["t"])] = p
+        for e in tr["ev"]:
+            if e["a"] == "End" and e["blocked"]:
+                # the limits of an accepting end come from the opener's CONNECT, those of the opening end from the CC
+                peer = "T" if e["side"] == "I" else "I"
+                p = ann.get((peer, "CONNECT" if e["role"] == "acc" else "CC"))
+                if p is None:
+                    continue
+                link = tr["const"]["cfg"]["miu" + peer]
+                cls = "none" if p["mtlv"] == 65535 else "below" if p["miux"] < link else "at" if p["miux"] == link else "above"
+                seen.add((e["mode"], e["side"], e["role"], cls, 1 if p["rw"] == 65535 else p["rw"]))
+    want = {(m, o, r, cl, w) for m in ("sap", "name", "resolved") for o in "IT" for r in ("opn", "acc")
+            for cl in ("none", "below", "at", "above") for w in (1, 2, 3, 4)}
     acc = nframes = nx = nup = nllc = nfull = 0
     for tr in traces:
         v = verdicts[tr["id"]]
@@ -527,12 +640,17 @@ def run(tier, seed):
             tr["id"], v[1], v[2], json.dumps(v[3], default=list)[:600], json.dumps(tr["const"]["cfg"]),
             json.dumps(tr["ev"][v[1] - 1])[:500]),
             replay=dict(kind=tr["const"]["kind"], k=tr["const"]["k"], full=any(e["a"] == "Dep" for e in tr["ev"])))
+    if want - seen and not ck.found:
+        raise tlc.TLCError("binding vacuous: connection ends not exercised: %s" % sorted(want - seen)[:6])
     ck.cover(full_traffic_runs=nfull, llc_pdus_checked=nllc, slow_target_answers=sum(t.get("slow", 0) for t in traces),traces_validated_against_impl=acc, activations=len(traces), activated=nup, grid_size=grid,
              distinct_configurations=distinct, tlc_initial_states=init_states,
              exhaustive_over_structured_grid=exhaustive, full_product_size="~1.1e8 (not enumerated)",
              traffic_frames_monitored=nframes, llcp_pdus_transferred=nx, trace_states=st["states"],
+             connection_ends_exercised=len(seen),
              binding_selftest="altered send-miu, dropped Activate, oversize frame rejected; AGF information field + 1 "
-                              "flagged by Obey, timeout + 1 ms flagged by Timeouts")
+                              "flagged by Obey, timeout + 1 ms flagged by Timeouts; send MIU - 1 / send window - 1 of an "
+                              "accepting end, window - 1 of an opening end flagged by ConnEqual, a refused message of "
+                              "exactly the limit by Admitted")
     ck.sample(dict(trace=traces[0]["id"], const=traces[0]["const"], activate=traces[0]["ev"][0]))
     ck.sample(dict(mc="P2pNeg grid " + "+".join(kinds), initial_states=init_states, obey_states=rq.distinct))
     ck.assume("grid = full product of the NFC-DEP options (brs, acm, discovery technology, lri, lrt, rwt), full product of"
@@ -544,7 +662,10 @@ def run(tier, seed):
               "full traffic phase (real run loops; UI bursts of 3..5 datagrams at sendMIU-4m-2..+4, maximum-size I PDUs with"
               " pending acknowledgements both ways, SNL batches) on the whole (miu, lto) and (lsc, agf, snep) products and a"
               " part of the other sub-grids; the remaining configurations get one LLC PDU each way",
-              "limits are decoded from the air: general bytes (link MIU, LTO), ATR (LR, WT), CONNECT/CC (connection MIU)",
+              "limits are decoded from the air: general bytes (link MIU, LTO), ATR (LR, WT), CONNECT/CC (connection MIU, RW)",
+              "data link connections: opened by both sides in every full-traffic run, addressed by SAP / by service name "
+              "(CONNECT to SAP 1) / by SAP after resolve(), CONNECT and CC announce MIU none/below/at/above the link MIU and "
+              "RW 1 (no TLV)..4; explicit MIUX 0, RW 0 and 15 are in the model only (the two real stacks do not emit them)",
               "fault-free air in C19 (faults: C04); the closing phase is checked at NFC-DEP level only",
               "both simulated devices support active communication mode; the target answers 106A+212F+424F or 212F+424F only")
     return ck.finish()
